@@ -118,6 +118,14 @@ def handle : List String → String
       | .ok (.code _) => PyErr.attribute.enc
       | .error e => e.enc
     | none => "!bad-arg"
+  | ["c11", "enum0", t] =>
+    match txt? t with
+    | some t =>
+      match create t [] none with
+      | .ok (.addr a) => s!"S {a.height} {a.width} U {if a.isUnbounded then "1" else "0"}"
+      | .ok (.code _) => PyErr.attribute.enc
+      | .error e => e.enc
+    | none => "!bad-arg"
   | ["c11", "contains", r, c] =>
     match txt? r, txt? c with
     | some r, some c =>
